@@ -61,6 +61,30 @@ Theorem pfaf_digits : forall ds pits sq main uparea mask depth, 1 <= depth -> fo
 Proof. exact PfafDigits.pfaf_digits. Qed.
 Print Assumptions pfaf_digits.
 
+(* PFAFSTETTER CLOSURE: every returned outlet is labelled, every ordered cell carries the label of the first returned outlet
+   on its downstream path, and is unlabelled exactly when its path ends in a pit without meeting one.  For loop-free
+   networks whose order lists every valid cell, pits that are pits, and upstream areas that are positive and strictly
+   larger downstream (any accumulated positive cell area); any mask and depth >= 1.  The proof is an invariant of the work
+   loop: labelled cells that are not outlets are the main upstream cell of a cell with the same label, the cells of one
+   label form one chain, labels of queued basins own disjoint unused ranges of codes (freshness), and the second sort
+   processes the tributaries of a basin from down- to upstream, which is what the interbasin relabelling needs. *)
+From PF Require Import PfafClosure.
+Theorem pfaf_closure : forall ds pits sq uparea mask depth,
+  topo ds sq -> (forall c, valid ds c -> In c sq) -> 1 <= depth -> NoDup pits ->
+  (forall p, In p pits -> In p sq /\ dsf ds p = p) ->
+  (forall c, In c sq -> 0 < nth c uparea 0) ->
+  (forall c, In c sq -> dsf ds c <> c -> nth c uparea 0 < nth (dsf ds c) uparea 0) ->
+  let main := main_upstream ds uparea 0 in
+  let r := subbasins_pfafstetter ds pits sq main uparea mask depth in
+  let L := fst r in let idxs := snd r in
+  (forall o, In o idxs -> In o sq /\ nth o L 0 <> 0) /\
+  (forall i, In i sq -> exists m,
+     (forall j, (j < m)%nat -> ~ In (iter ds j i) idxs /\ dsf ds (iter ds j i) <> iter ds j i) /\
+     ((In (iter ds m i) idxs /\ nth i L 0 = nth (iter ds m i) L 0) \/
+      (~ In (iter ds m i) idxs /\ dsf ds (iter ds m i) = iter ds m i /\ nth i L 0 = 0))).
+Proof. exact PfafClosure.pfaf_closure. Qed.
+Print Assumptions pfaf_closure.
+
 (* non-vacuity *)
 Example sto_example : topo [0;0;1;1]%nat [0;1;2;3]%nat /\
   subbasins_streamorder [0;0;1;1]%nat [0;1;2;3]%nat [2;2;1;1] 1 = ([3;3;2;1], [3;2;0]%nat).
